@@ -369,7 +369,7 @@ def check_C10(res, tier, seed):
     res.coverage.update({'evaluations': stats['calls'], 'distinct_nontrivial': distinct,
                          'rule': 'per sequence 6-12 cases: AES ECB/CBC/CBC-PAD/CTR(16..128 counter bits)/GCM(IV 1..16 bytes, AAD, tag 4..16 bytes) single- vs multi-part (random splits incl. empty parts) vs the pure-Python reference, decryption of reference ciphertexts, GCM tampering of ciphertext/tag/IV/AAD; HMAC (MD5..SHA-512) and AES-CMAC sign/verify incl. flipped, truncated, extended, empty MACs; digests; RSA PKCS#1 v1.5 / hash-RSA / OAEP / PSS / raw against integer arithmetic with known keys; distinct = distinct call/result sequences',
                          'samples': samples, 'k_crypto': stats, 'traces_validated_against_impl': stats['sequences'],
-                         'not_covered': 'DSA, ECDSA, EdDSA, DH, ECDH, X25519/448, DES3: no independent implementation in this sandbox'})
+                         'not_covered': 'DSA, ECDSA, EdDSA signatures, X25519/448, DES3, ECDH on curves other than P-256: no independent implementation in this sandbox (DH and ECDH P-256 shared secrets are checked by integer arithmetic)'})
     finish_proof_side(c, res, 'C10')
 
 
